@@ -120,6 +120,9 @@ func checkC09(run *rt.Run, seed uint64, cfg encCfg, judge bool) (*payloadCase, *
 	if pc.BadTag || pc.MustFail {
 		// forwarded without error: acceptable only because nothing leaked (checked above)
 		run.Add("fail_closed_cases_forwarded_protected", 1)
+		if pc.BadTag {
+			run.Violation("shape:bad-tag-forwarded", "a Taggable map carries a tag pointer that cannot be applied to it, yet Process returned no error and forwarded an event", wit(""))
+		}
 	}
 	return pc, ev, res
 }
@@ -146,6 +149,7 @@ func TestC09(t *testing.T) {
 	for i := 0; i < n && !run.Stop(); i++ {
 		seed := r.Uint64()
 		cfg := genCfgEnc(r)
+		cfg.PtrCont = i%2 == 0
 		if i%64 == 0 {
 			run.Progress("C09 seed=%d cfg=%s", seed, cfg)
 		}
